@@ -15,6 +15,14 @@
      ARemove ids   apply_remove + process_removed_objects    refinement.value -= area.value; integral -= area.value
      AResetDW   initialize_evaluation_dimension_wise         refinement.value := 0; integral := 0
      AEvalDW x  calculate_operation_dimension_wise           refinement.value += x; integral += x
+     ASide id x    evaluate_area(area, .., None, None, apply_to_combi_result=False): a SIDE evaluation (twin errors of
+                   split_single_dim: the freshly created areas and their temporary twin-parent areas; never part of the
+                   reported result).  area.value += x for an area of the container, nothing else; an area that is not in
+                   the container (temporary parent) leaves no trace in the state.
+     AEstimate id  evaluate_area_for_error_estimates (split/extend benefits, parent estimates): no accumulator is touched
+     AResetTotal   Integration.reset_result                  integral := 0
+     AReinit       RefinementContainer.reinit_new_objects (recalculate_frequently): refinement.value := 0, every object
+                   is marked new again - operation.integral is NOT reset by the code as it is
    Definitions only; proofs in Proofs/AccumProofs.v. *)
 From Coq Require Import ZArith List Bool.
 Import ListNotations.
@@ -58,7 +66,11 @@ Section Accum.
   | AEval (id : Z) (x : V) (to_total to_cont : bool)
   | ARemove (ids : list Z)
   | AResetDW
-  | AEvalDW (x : V).
+  | AEvalDW (x : V)
+  | ASide (id : Z) (x : V)
+  | AEstimate (id : Z)
+  | AResetTotal
+  | AReinit.
 
   Definition remove_one (s : astate) (id : Z) : astate :=
     let v := area_val id (st_areas s) in
@@ -74,6 +86,14 @@ Section Accum.
     | ARemove ids => fold_left remove_one ids s
     | AResetDW => mkA (st_areas s) (st_new s) vzero vzero
     | AEvalDW x => mkA (st_areas s) (st_new s) (vadd (st_total s) x) (vadd (st_cont s) x)
+    | ASide id x =>
+        match area_get id (st_areas s) with
+        | Some v => mkA (area_set id (vadd v x) (st_areas s)) (st_new s) (st_total s) (st_cont s)
+        | None => s
+        end
+    | AEstimate _ => s
+    | AResetTotal => mkA (st_areas s) (st_new s) vzero (st_cont s)
+    | AReinit => mkA (st_areas s) (map fst (st_areas s)) (st_total s) vzero
     end.
 
   Definition apply_events (es : list aevent) (s : astate) : astate := fold_left apply_event es s.
@@ -112,17 +132,37 @@ Section Accum.
   Definition evaluate_dw (xs : list V) (s : astate) : astate := apply_events (AResetDW :: map AEvalDW xs) s.
   Definition final_combi_dw_asis (xs : list V) (s : astate) : astate := apply_events (map AEvalDW xs) s.
 
+  (* recalculate_frequently as it is: after the refinement every object is marked new again and the container value is
+     reset, the running total is kept; repaired: the running total is reset as well *)
+  Definition recalc_asis (s : astate) : astate := apply_event s AReinit.
+  Definition recalc_fixed (s : astate) : astate := apply_event (apply_event s AReinit) AResetTotal.
+
   Inductive dstep :=
   | DEvaluate (parts : parts_t)
   | DRefine (removed added : list Z)
-  | DEvaluateDW (xs : list V).
+  | DEvaluateDW (xs : list V)
+  | DSide (id : Z) (x : V)          (* side evaluation (apply_to_combi_result = False, no container) *)
+  | DEstimate (id : Z).             (* error-estimate evaluation *)
 
   Definition apply_step (clear : bool) (s : astate) (st : dstep) : astate :=
     match st with
     | DEvaluate parts => evaluate_new clear parts s
     | DRefine removed added => refine_step removed added s
     | DEvaluateDW xs => evaluate_dw xs s
+    | DSide id x => apply_event s (ASide id x)
+    | DEstimate id => apply_event s (AEstimate id)
     end.
+
+  Definition is_side (st : dstep) : bool := match st with DSide _ _ | DEstimate _ => true | _ => false end.
+  (* the driver without its side evaluations *)
+  Definition strip_sides (steps : list dstep) : list dstep := filter (fun st => negb (is_side st)) steps.
+
+  (* the state with the (meaningless) values of the not yet evaluated new areas blanked out *)
+  Fixpoint memZ (x : Z) (l : list Z) : bool := match l with [] => false | y :: r => (y =? x) || memZ x r end.
+  Definition zero_new_areas (news : list Z) (l : list (Z * V)) : list (Z * V) :=
+    map (fun p => if memZ (fst p) news then (fst p, vzero) else p) l.
+  Definition zero_new (s : astate) : astate :=
+    mkA (zero_new_areas (st_new s) (st_areas s)) (st_new s) (st_total s) (st_cont s).
 
   Definition run_steps (clear : bool) (steps : list dstep) (s : astate) : astate := fold_left (apply_step clear) steps s.
 
@@ -141,9 +181,15 @@ Arguments AEval {V}.
 Arguments ARemove {V}.
 Arguments AResetDW {V}.
 Arguments AEvalDW {V}.
+Arguments ASide {V}.
+Arguments AEstimate {V}.
+Arguments AResetTotal {V}.
+Arguments AReinit {V}.
 Arguments DEvaluate {V}.
 Arguments DRefine {V}.
 Arguments DEvaluateDW {V}.
+Arguments DSide {V}.
+Arguments DEstimate {V}.
 
 (* ------------------------------------------------------------------ StandardCombi.get_points_and_weights (lines 884-897):
    the component rules concatenated, each weight multiplied by the combination coefficient *)
@@ -160,3 +206,11 @@ Definition apply_rule {P} (f : P -> Qc) (r : rule P) : Qc := sumQ (map (fun pw =
 (* the coefficient-weighted sum of the component quadratures *)
 Definition combine_components {P} (f : P -> Qc) (scheme : list (Qc * rule P)) : Qc :=
   sumQ (map (fun cr => (fst cr * apply_rule f (snd cr))%Qc) scheme).
+
+(* ------------------------------------------------------------------ executable check of the accumulator invariant on a state
+   over Qc (evaluated through the entry point on every replayed snapshot; soundness: Proofs/AccumProofs.v inv_checkb_sound) *)
+Fixpoint nodupZb (l : list Z) : bool :=
+  match l with [] => true | x :: r => negb (memZ x r) && nodupZb r end.
+
+Definition inv_checkb (s : astate Qc) : bool :=
+  nodupZb (map fst (st_areas s)) && Qc_eq_bool (st_total s) (vsum Qc 0%Qc Qcplus (map snd (st_areas s))) && Qc_eq_bool (st_cont s) (st_total s).
